@@ -3,7 +3,7 @@ arguments after the seed), extra trusted-base entries."""
 
 PROPS = {
     "C17": {
-        "coq_deps": ["NodeLabelFacts", "ElemSet"],
+        "coq_deps": ["NodeLabelFacts", "ElemSet", "ElemSetFacts", "BitsLabel", "InsertRefine"],
         "steps": [
             {"sub": "labels", "quick": [0], "thorough": [1]},
         ],
@@ -62,10 +62,10 @@ PROPS = {
     },
     "C01": {
         "spec_ops": ["specroot"],
-        "coq_deps": ["DirFacts", "Spec"],
+        "coq_deps": ["DirFacts", "Spec", "InsertRefine"],
         "steps": [{"sub": "dirs", "quick": [0], "thorough": [1]}],
         "rule": "random publish histories on the real Directory (both configurations; cached/uncached; sequential/parallel insertion; labels incl. empty, 1-byte, prefix-related and 330-byte; values incl. empty and 1500-byte; inserts, updates, re-submissions, no-op and duplicate-label batches): after every publish the full database (every node record, the epoch record, every value state) and the returned epoch hash are recomputed by the extracted model; the root hash is recomputed from the history alone by the canonical-trie specification (specroot); every lookup, key-history (Complete, MostRecent 1/n/n+3/random) and audit proof is compared structurally with the model's and its verification verdict and result with the model verifier's; ground truth from an independent version table",
-        "partial": "theorems cover publish's control flow (duplicates, no-op, epoch stepping); root hash = hash of the canonical trie over the prescribed leaves is decided by the specroot correspondence on every run, not yet by a refinement theorem",
+        "partial": "the refinement theorem (insertion = canonical trie over the prescribed leaves, any history, any configuration) is proved at the tree level for batches of distinct 256-bit labels; that derive_all hands such batches to the tree (non-colliding VRF outputs, one fresh / one stale label per version) is decided by the state correspondence on every run",
         "assumptions": ["VRF outputs are an environment table produced by the implementation's primitive"],
     },
     "C02": {
@@ -143,7 +143,7 @@ PROPS = {
         "assumptions": ["each storage operation is atomic; the read-fill / write-through race on one cache key (K3) is outside the schedules explored (see DESIGN.md)"],
     },
     "C14": {
-        "coq_deps": ["InsertFacts"],
+        "coq_deps": ["InsertFacts", "InsertRefine"],
         "steps": [{"sub": "c14", "quick": [0], "thorough": [1], "timeout": 3000},
                   {"sub": "dirs", "quick": [0], "thorough": [0], "featureset": "B"},
                   {"sub": "c14", "quick": [0], "thorough": [0], "featureset": "B", "timeout": 3000}],
